@@ -10,6 +10,14 @@ fn main() {
     if args.len() < 3 {
         usage();
     }
+    if args[1] == "serve-pag" {
+        let rt = tokio::runtime::Builder::new_multi_thread().enable_all().build().unwrap();
+        let _g = rt.enter();
+        let server = vlib::dynapi::start_server(vlib::pagapi::pag_api(), vlib::pagapi::PagCtx::default(), Default::default(), None).unwrap();
+        println!("{}", server.local_addr());
+        std::thread::sleep(std::time::Duration::from_secs(args[2].parse().unwrap_or(60)));
+        return;
+    }
     if args[1] == "serve" {
         // manual experiments: start the echo server and print its address
         let rt = tokio::runtime::Builder::new_multi_thread().enable_all().build().unwrap();
@@ -60,6 +68,9 @@ fn main() {
         "C06" => vlib::c06::run(&mut ctx),
         "C09" => vlib::c09::run(&mut ctx),
         "C10" => vlib::c10::run(&mut ctx),
+        "C11" => vlib::c11::run(&mut ctx),
+        "C12" => vlib::c12::run(&mut ctx),
+        "C14" => vlib::c14::run(&mut ctx),
         "C13" => vlib::c13::run(&mut ctx),
         _ => {
             eprintln!("unknown property {}", id);
